@@ -1,6 +1,7 @@
 use crate::rt::Ctx;
 
 pub mod acct;
+pub mod cli;
 pub mod c01;
 pub mod c02;
 pub mod c03;
